@@ -329,8 +329,16 @@ def _exit_paths(fa, cap=20000):
                 return True
         return any(isinstance(x, ast.Call) and not (A.dotted(x.func) or "").startswith("log.") for x in A.walk_local(a))
 
+    def truth_of(t):
+        """`bool(E)` tested is `E` tested"""
+        while isinstance(t, ast.Call) and isinstance(t.func, ast.Name) and t.func.id == "bool" and len(t.args) == 1 and not t.keywords \
+                and not isinstance(t.args[0], ast.Starred):
+            t = t.args[0]
+        return t
+
     def atoms(t, node_id, positive, env, path):
         """literals of test `t` taken with the given polarity; None = this branch is infeasible."""
+        t = truth_of(t)
         if isinstance(t, ast.UnaryOp) and isinstance(t.op, ast.Not):
             return atoms(t.operand, node_id, not positive, env, path)
         if isinstance(t, ast.BoolOp) and ((isinstance(t.op, ast.And) and positive) or (isinstance(t.op, ast.Or) and not positive)):
@@ -345,6 +353,7 @@ def _exit_paths(fa, cap=20000):
             return [] if bool(t.value) == positive else None
         if isinstance(t, ast.Name) and t.id in env:
             val, dnode, didx = env[t.id]
+            val = truth_of(val)
             if isinstance(val, ast.Constant):
                 return [] if bool(val.value) == positive else None
             if isinstance(val, (ast.Compare, ast.BoolOp, ast.UnaryOp, ast.Name, ast.Attribute)) and not any(isinstance(x, ast.Call) for x in ast.walk(val)) \
@@ -385,6 +394,7 @@ def _exit_paths(fa, cap=20000):
         """The ways test `t` can come out with the given polarity, each a list of literals.  A conjunction taken true is
         one way; a disjunction taken true (a conjunction taken false) is decided by the first operand that settles it,
         the earlier ones having come out the other way (short circuit) - one way per operand."""
+        t = truth_of(t)
         if isinstance(t, ast.UnaryOp) and isinstance(t.op, ast.Not):
             return alts(t.operand, node_id, not positive, env, path)
         if isinstance(t, ast.BoolOp):
@@ -401,6 +411,7 @@ def _exit_paths(fa, cap=20000):
             return res
         if isinstance(t, ast.Name) and t.id in env:
             val, dnode, didx = env[t.id]
+            val = truth_of(val)
             if isinstance(val, (ast.BoolOp, ast.UnaryOp)) and not any(isinstance(x, ast.Call) for x in ast.walk(val)) \
                     and not any(effectful(cfg.node(i)) for i in path[didx + 1:]):
                 return alts(val, dnode, positive, {k: v for k, v in env.items() if v[2] < didx}, path[:didx])
@@ -1011,11 +1022,28 @@ def check_hash_input_coverage(ck, R):
         ns = fx.nodes(st) if st is not None else []
         return ns[0] if ns else None
 
+    # the parameter that stands for the code object, per function of the unit: the digester's and the dispatchers' own, and
+    # that of a helper which every call inside the unit hands the caller's code object (`_attr_values(o, ...)`)
+    code_params = dict(unit.entries)
+    grew = True
+    while grew:
+        grew = False
+        for f_ in unit.funcs.values():
+            if f_.name in code_params:
+                continue
+            sites = [(cfi_, c_) for cfi_ in unit_fis for c_ in fa_of(cfi_).calls(f_.name) if callee_of(fa_of(cfi_), c_) is f_]
+            for p_ in f_.params:
+                if sites and all(cfi_ is not outer.fi and len(b_) == 1 and isinstance(b_[0], ast.Name) and code_params.get(cfi_.name) == b_[0].id
+                                 and unit.funcs.get(cfi_.name) is cfi_ for (cfi_, c_) in sites for b_ in [bound_args(c_, f_, p_)]):
+                    code_params[f_.name] = p_
+                    grew = True
+                    break
+
     def code_param(n):
-        """the name that stands for the code object in the function node `n` belongs to (the digester, or a function that hands its
-        parameter on to it), else None"""
+        """the name that stands for the code object in the function node `n` belongs to (the digester, a function that hands its
+        parameter on to it, or a helper that is handed it), else None"""
         fx = owner.get(id(n))
-        return unit.entries.get(fx.fi.name) if fx is not None and unit.funcs.get(fx.fi.name) is fx.fi else None
+        return code_params.get(fx.fi.name) if fx is not None and unit.funcs.get(fx.fi.name) is fx.fi else None
 
     for n in fed_nodes.values():
         attrs = []
@@ -1059,6 +1087,12 @@ def check_hash_input_coverage(ck, R):
         f = call.func
         if unit.hashes_code(call, var):
             return True
+        if isinstance(f, ast.Name) and depth < 3 and f.id in h.fi.params and h.fi is not outer.fi:
+            # a callback parameter: it is the hasher if that is what every call of this function inside the unit binds to it
+            sites = [(cx_, c_) for cfi_ in unit_fis for cx_ in [fa_of(cfi_)] for c_ in cx_.calls(h.fi.name) if callee_of(cx_, c_) is h.fi]
+            bound = [(cx_, bound_args(c_, h.fi, f.id)) for (cx_, c_) in sites]
+            if sites and all(len(b_) == 1 and is_hasher_ref(b_[0], hx=cx_) for (cx_, b_) in bound):
+                return True
         if isinstance(f, ast.Name) and depth < 3:
             # a local alias of the hasher
             for st in h.stmts(ast.Assign):
@@ -1337,7 +1371,17 @@ def _sorted_source(fa, e, at, depth=6):
     if isinstance(e, ast.Attribute) and isinstance(e.value, ast.Name) and e.value.id == "self":
         asg = [s_ for s_ in fa.stmts(ast.Assign) if fa.nodes(s_) and any(A.dotted(t) == "self." + e.attr for t in s_.targets)]
         if len(asg) == 1 and at not in fa.nodes(asg[0]) and fa.cfg.must_pass(fa.nodes(asg[0]), at):
-            return _sorted_source(fa, asg[0].value, fa.nodes(asg[0])[0], depth - 1)
+            r = _sorted_source(fa, asg[0].value, fa.nodes(asg[0])[0], depth - 1)
+            if r is not None:
+                return r
+            v = asg[0].value
+            if isinstance(v, ast.Call) and isinstance(v.func, ast.Name) and v.func.id == "list" and len(v.args) == 1 and not v.keywords:
+                # a list copy kept in the field and sorted in place there (its only change) before this point
+                muts = [c for c in fa.calls() if A.call_recv(c) is not None and A.norm(A.call_recv(c)) == "self." + e.attr and A.call_attr(c) in _LIST_MUTATORS]
+                stores = [x for x in A.walk_body(fa.node) if isinstance(x, ast.Subscript) and isinstance(x.ctx, (ast.Store, ast.Del)) and A.norm(x.value) == "self." + e.attr]
+                if len(muts) == 1 and not stores and A.call_attr(muts[0]) == "sort" and not muts[0].args and not muts[0].keywords and fa.nodes(muts[0]) \
+                        and at not in fa.nodes(muts[0]) and fa.cfg.must_pass(fa.nodes(muts[0]), at) and fa.cfg.must_pass(fa.nodes(asg[0]), fa.nodes(muts[0])[0]):
+                    return (muts[0], v.args[0], fa.nodes(asg[0])[0])
     return None
 
 
@@ -2108,6 +2152,20 @@ def check_descent_complete(ck, R):
     unit = _visit_unit(ck)
     v = unit[0]
     helper_names = {fx.fi.name for fx in unit[1:]}
+    # the function that offers a symbol to the rule strategies, found by WHAT IT DOES (it calls try_resolve): the function nested in
+    # _visit_dependency, or a method of the class that _visit_dependency was split into (the blacklist is then one of its parameters)
+    def _calls_try_resolve(fi_):
+        return any(A.call_attr(c) == "try_resolve" for c in A.body_calls(fi_.node))
+
+    rs = None
+    for fx in unit:
+        rs = rs or fx.fi.nested.get("resolve_symbol")
+    rs_by_name = rs is not None
+    if rs is None:
+        cands = [n_ for fx in unit for n_ in fx.fi.nested.values() if _calls_try_resolve(n_)] + [fx.fi for fx in unit[1:] if _calls_try_resolve(fx.fi)]
+        ck.need(len(cands) == 1, "_visit_dependency: expected one function (nested in it, or a method of HashRule it calls) that offers the symbol to the rule "
+                                 "strategies (calls try_resolve), found %d" % len(cands))
+        rs = cands[0]
     n_tests = 0
     for fx in unit:
         colls = fx.nodes_all(fx.calls("collect_transitive_dependencies"))
@@ -2116,7 +2174,7 @@ def check_descent_complete(ck, R):
             if x.kind == "test" and isinstance(x.ast, ast.Compare) and len(x.ast.ops) == 1 and isinstance(x.ast.ops[0], (ast.IsNot, ast.Is)) \
                     and A.is_none(x.ast.comparators[0]) and isinstance(x.ast.left, ast.Name) and x.id in fx.cfg.reachable_nodes():
                 d_ = fx.df.deps(x.ast.left, x.id)
-                if "call:resolve_symbol" in d_ or any(("call:" + h_) in d_ for h_ in helper_names):
+                if ("call:" + rs.name) in d_ or any(("call:" + h_) in d_ for h_ in helper_names):
                     rule_tests.append(x)
         n_tests += len(rule_tests)
         for t in rule_tests:
@@ -2149,17 +2207,8 @@ def check_descent_complete(ck, R):
     ck.need(n_tests >= 2, "_visit_dependency: `if rule is not None` sites not found")
     # the function that offers a symbol to the rule strategies, found by WHAT IT DOES (it calls try_resolve): the function nested in
     # _visit_dependency, or a method of the class that _visit_dependency was split into (the blacklist is then one of its parameters)
-    rs = None
-    for fx in unit:
-        rs = rs or fx.fi.nested.get("resolve_symbol")
     BL = "blacklist"
-    if rs is None:
-        def _calls_try_resolve(fi_):
-            return any(A.call_attr(c) == "try_resolve" for c in A.body_calls(fi_.node))
-        cands = [n_ for fx in unit for n_ in fx.fi.nested.values() if _calls_try_resolve(n_)] + [fx.fi for fx in unit[1:] if _calls_try_resolve(fx.fi)]
-        ck.need(len(cands) == 1, "_visit_dependency: expected one function (nested in it, or a method of HashRule it calls) that offers the symbol to the rule "
-                                 "strategies (calls try_resolve), found %d" % len(cands))
-        rs = cands[0]
+    if not rs_by_name:
         if rs.parent is None:
             # which parameter receives the blacklist: what the call sites in the unit bind the traversal's blacklist to
             got = set()
@@ -2583,47 +2632,103 @@ def _scalar_type_literal(text, subject):
 
 
 def _stable_repr_function(ck, name):
-    """A module-level function of code_hash that sorts set elements (canonical repr)."""
+    """A module-level function of code_hash that renders the elements of a set in an order that does not depend on the hash seed:
+    in the branch for sets, EVERY iteration over the object maps the elements through this very function and the resulting
+    strings are sorted (by themselves: no key) before anything else reads them - `sorted(f(x) for x in o)`, `sorted(map(f, o))`,
+    a list built by a comprehension or filled by an append loop and then sorted in place / handed to sorted()."""
     m = ck.repo.module(CH)
     fi = m.functions.get(name)
     if fi is None:
         return False
+    fa = FA(ck, fi)
     param = fi.params[0] if fi.params else "o"
+
+    def plain_sorted(call, arg):
+        return isinstance(call, ast.Call) and isinstance(call.func, ast.Name) and call.func.id == "sorted" and call.args and call.args[0] is arg and not call.keywords
+
+    def maps_through_self(elt, var):
+        return isinstance(elt, ast.Call) and A.call_attr(elt) == name and len(elt.args) == 1 and not elt.keywords and isinstance(elt.args[0], ast.Name) and elt.args[0].id == var
+
+    def sorted_before_read(lst, fill_stmts, scope):
+        """the local list `lst` (filled by `fill_stmts` only) is sorted, by its elements themselves, before anything else reads it"""
+        pm_ = A.parent_map(scope)
+        sorts, reads = [], []
+        for x in ast.walk(scope):
+            if not (isinstance(x, ast.Name) and x.id == lst):
+                continue
+            if isinstance(x.ctx, ast.Store):
+                if not any(x in ast.walk(f_) for f_ in fill_stmts):
+                    return False   # given another value somewhere
+                continue
+            if any(x in ast.walk(f_) for f_ in fill_stmts):
+                continue
+            par = pm_.get(x)
+            if isinstance(par, ast.Attribute) and par.value is x and isinstance(pm_.get(par), ast.Call) and pm_.get(par).func is par:
+                c_ = pm_.get(par)
+                if par.attr == "sort" and not c_.args and not c_.keywords:
+                    sorts.append(c_)
+                    continue
+                if par.attr in _LIST_MUTATORS:
+                    return False
+            if plain_sorted(par, x):
+                continue    # read through sorted(): the order it had does not matter
+            reads.append(x)
+        if not reads:
+            return True
+        sn = fa.nodes_all(sorts)
+        return bool(sn) and all(fa.nodes(r_) and all(fa.cfg.must_pass(sn, i_) and i_ not in sn for i_ in fa.nodes(r_)) for r_ in reads)
+
     for i in [n for n in A.walk_body(fi.node) if isinstance(n, ast.If)]:
         it = A.isinstance_types(i.test)
-        if it and "frozenset" in it[1]:
-            # every iteration over the set must be a comprehension mapping the elements through
-            # this very function, wrapped directly in sorted(...): the order is then the order of
-            # canonical strings, which exists for mixed-type sets and does not depend on the seed
-            ok_any = False
-            for st in i.body:
-                for n in ast.walk(st):
-                    if isinstance(n, ast.Name) and n.id == param and isinstance(n.ctx, ast.Load):
-                        # find how this occurrence is used
-                        pm = A.parent_map(st)
-                        par = pm.get(n)
-                        if isinstance(par, ast.Call) and A.call_attr(par) == "type":
-                            continue
-                        if isinstance(par, ast.comprehension) and par.iter is n:
-                            comp = pm.get(par)
-                            outer = pm.get(comp)
-                            elt = getattr(comp, "elt", None)
-                            good = isinstance(elt, ast.Call) and A.call_attr(elt) == name and isinstance(outer, ast.Call) and A.call_attr(outer) == "sorted" \
-                                and outer.args and outer.args[0] is comp and not outer.keywords
-                            if good:
-                                ok_any = True
-                                continue
-                        if isinstance(par, ast.Call) and isinstance(par.func, ast.Name) and par.func.id == "map" and len(par.args) == 2 and par.args[1] is n \
-                                and isinstance(par.args[0], ast.Name) and par.args[0].id == name:
-                            outer = pm.get(par)
-                            if isinstance(outer, ast.Call) and A.call_attr(outer) == "sorted" and outer.args and outer.args[0] is par and not outer.keywords:
-                                ok_any = True
-                                continue
-                        return False
-            # no fallback path that iterates in raw order (e.g. except TypeError: list(o))
-            if any(isinstance(n, ast.Try) for st in i.body for n in ast.walk(st)):
+        if not (it and "frozenset" in it[1]):
+            continue
+        # no fallback path that iterates in raw order (e.g. except TypeError: list(o))
+        if any(isinstance(n, ast.Try) for st in i.body for n in ast.walk(st)):
+            return False
+        scope = ast.Module(body=list(i.body), type_ignores=[])
+        pm = A.parent_map(scope)
+        ok_any = False
+        for n in ast.walk(scope):
+            if not (isinstance(n, ast.Name) and n.id == param and isinstance(n.ctx, ast.Load)):
+                continue
+            par = pm.get(n)
+            if isinstance(par, ast.Call) and A.call_attr(par) == "type":
+                continue
+            if isinstance(par, ast.comprehension) and par.iter is n:
+                comp = pm.get(par)
+                if isinstance(comp, (ast.ListComp, ast.GeneratorExp, ast.SetComp)) and len(comp.generators) == 1 and not par.ifs \
+                        and isinstance(par.target, ast.Name) and maps_through_self(comp.elt, par.target.id):
+                    outer = pm.get(comp)
+                    if plain_sorted(outer, comp):
+                        ok_any = True
+                        continue
+                    if isinstance(comp, ast.ListComp) and isinstance(outer, ast.Assign) and len(outer.targets) == 1 and isinstance(outer.targets[0], ast.Name) \
+                            and sorted_before_read(outer.targets[0].id, [outer], scope):
+                        ok_any = True
+                        continue
                 return False
-            return ok_any
+            if isinstance(par, ast.Call) and isinstance(par.func, ast.Name) and par.func.id == "map" and len(par.args) == 2 and par.args[1] is n \
+                    and isinstance(par.args[0], ast.Name) and par.args[0].id == name:
+                outer = pm.get(par)
+                if plain_sorted(outer, par):
+                    ok_any = True
+                    continue
+                return False
+            if isinstance(par, ast.For) and par.iter is n and isinstance(par.target, ast.Name) and not par.orelse and len(par.body) == 1:
+                # for x in o: L.append(f(x)) - with L = [] before it and sorted before it is read
+                b_ = par.body[0]
+                c_ = b_.value if isinstance(b_, ast.Expr) else None
+                if isinstance(c_, ast.Call) and A.call_attr(c_) == "append" and isinstance(A.call_recv(c_), ast.Name) and len(c_.args) == 1 and not c_.keywords \
+                        and maps_through_self(c_.args[0], par.target.id):
+                    lst = A.call_recv(c_).id
+                    inits = [x for x in ast.walk(scope) if isinstance(x, ast.Assign) and len(x.targets) == 1 and isinstance(x.targets[0], ast.Name) and x.targets[0].id == lst]
+                    if len(inits) == 1 and isinstance(inits[0].value, ast.List) and not inits[0].value.elts and fa.nodes(inits[0]) and fa.nodes(par) \
+                            and all(fa.cfg.must_pass(fa.nodes(inits[0]), j_) for j_ in fa.nodes(par)) and sorted_before_read(lst, [inits[0], par], scope):
+                        ok_any = True
+                        continue
+                return False
+            return False
+        return ok_any
     return False
 
 
@@ -3312,6 +3417,270 @@ def check_update_protocol(ck, R):
     ck.ob(R, ig.key(None, "monotone"), oki, "the generation only grows" if oki else "increment_global_fn_generation does not add 1", ig.where())
 
 
+_CLS_VIA_SELF = re.compile(r"(?:\btype\(self\)|\bself\.__class__)\.(\w+)\b")
+
+
+def check_locked_freezes_last_definition(ck, R):
+    """C03 (D55): what a locked cluster freezes is the version AS OF THE LAST FUNCTION DEFINITION.  The version of a function is
+    first computed while the function is being registered, when the functions defined after it do not exist yet; a locked
+    cluster that kept that version would make it depend on the order of the definitions.  Three parts, each decided by role:
+      (1) the exit that keeps the version because the cluster is locked is reached only under a comparison that implies
+          `stamp of this version >= generation of the last definition` (or >= the current generation, which is never smaller);
+      (2) the generation of the last definition is recorded, from the current generation and after the bump, on every way to
+          the registration of a function, and is never given another value;
+      (3) the stamp is given the current generation on every path through the recomputation (after the last bump of that
+          path), and elsewhere only where the version was confirmed for the current generation."""
+    ck.rule(R, "a locked cluster freezes the version as of the last function definition: the locked early exit is taken only for a "
+               "version stamped at or after the generation recorded when the last function was registered; that generation is recorded "
+               "at registration; the stamp is set when the version is computed", 4)
+    fa = FA(ck, MF + "._update_dependencies")
+    cfg = fa.cfg
+    recs = set(fa.nodes_all(fa.calls("_recompute_version")))
+    ck.need(recs, "_update_dependencies: _recompute_version call not found")
+    paths = _exit_paths(fa)
+    ck.need(paths is not None, "_update_dependencies: too many paths")
+    GEN = "MementoFunction._global_fn_generation"
+
+    def cls_text(t):
+        t = _CLS_VIA_SELF.sub(r"MementoFunction.\1", t)
+        return re.sub(r"\bself\.(_global_fn_generation)\b", r"MementoFunction.\1", t)
+
+    # class-level counters that registration sets from the current generation
+    ini = FA(ck, MF + ".__init__")
+    recorded = {}   # attribute -> [assignment statements in __init__]
+    for s_ in ini.stmts(ast.Assign):
+        if not ini.nodes(s_):
+            continue
+        at_ = ini.nodes(s_)[0]
+        for t in s_.targets:
+            if isinstance(t, ast.Attribute) and re.fullmatch(r"MementoFunction|type\(self\)|self\.__class__|cls", ini.xnorm(t.value, at_) or "") \
+                    and cls_text(ini.xnorm(s_.value, at_)) == GEN:
+                recorded.setdefault(t.attr, []).append(s_)
+
+    # ... or that a method of the class called by the registration sets from it, on the conditions this very call satisfies
+    # (`increment_global_fn_generation(reason, definition=True)`): the call stands for the assignment then
+    recorded_by_call = {}   # attribute -> [(call in __init__, the bump happens inside the callee before the recording)]
+    owner = ck.repo.cls(MF)
+    for c in ini.calls():
+        rc, nm = A.call_recv(c), A.call_attr(c)
+        m = owner.methods.get(nm or "")
+        if rc is None or m is None or nm == "__init__" or not ini.nodes(c) or \
+                not re.fullmatch(r"MementoFunction|type\(self\)|self\.__class__|self|cls", ini.xnorm(rc, ini.nodes(c)[0]) or ""):
+            continue
+        fx = FA(ck, m)
+        me = m.params[0] if m.params and not m.is_static else None
+
+        def own(t, _me=me):
+            return re.sub(r"\b%s\." % re.escape(_me), "MementoFunction.", cls_text(t)) if _me else cls_text(t)
+
+        bumps = [b for b in fx.stmts(ast.AugAssign) if fx.nodes(b) and own(A.norm(b.target)) == GEN] + \
+            [b for b in fx.calls("increment_global_fn_generation") if fx.nodes(b)]
+        for s_ in fx.stmts(ast.Assign):
+            if not fx.nodes(s_) or own(fx.xnorm(s_.value, fx.nodes(s_)[0])) != GEN:
+                continue
+            for t in s_.targets:
+                if not (isinstance(t, ast.Attribute) and own(A.norm(t.value) + ".x") == "MementoFunction.x"):
+                    continue
+                dnf = fx.conditions(s_)
+                if dnf is None:
+                    continue
+                holds = False
+                for conj in dnf:
+                    okc = True
+                    for (txt, pol) in conj:
+                        a_ = _call_arg(ck, c, m.qual, txt) if txt in m.params else None
+                        okc = okc and isinstance(a_, ast.Constant) and bool(a_.value) == pol
+                    holds = holds or okc
+                if holds:
+                    inside = bool(bumps) and all(fx.cfg.must_pass(fx.nodes_all(bumps), i) for i in fx.nodes(s_))
+                    recorded_by_call.setdefault(t.attr, []).append((c, inside))
+    for k_ in recorded_by_call:
+        recorded.setdefault(k_, [])
+
+    def is_locked(text):
+        e = _parse_lit(text)
+        return isinstance(e, ast.Attribute) and e.attr == "locked" and "get_cluster(" in text
+
+    def stamp_relation(text, pol):
+        """(stamp field, counter, operator as `stamp OP counter`) for a literal that compares a field of the instance with a
+        class-level generation counter, read with the polarity it has on the path."""
+        e = _parse_lit(cls_text(text))
+        if not (isinstance(e, ast.Compare) and len(e.ops) == 1):
+            return None
+        l_, r_ = e.left, e.comparators[0]
+        op = type(e.ops[0]).__name__
+
+        def inst(x):
+            return x.attr if isinstance(x, ast.Attribute) and isinstance(x.value, ast.Name) and x.value.id == "self" else None
+
+        def counter(x):
+            return x.attr if isinstance(x, ast.Attribute) and isinstance(x.value, ast.Name) and x.value.id == "MementoFunction" else None
+
+        if inst(l_) and counter(r_):
+            fld, cnt = inst(l_), counter(r_)
+        elif inst(r_) and counter(l_):
+            fld, cnt = inst(r_), counter(l_)
+            op = {"Gt": "Lt", "Lt": "Gt", "GtE": "LtE", "LtE": "GtE"}.get(op, op)
+        else:
+            return None
+        if not pol:
+            op = {"Gt": "LtE", "LtE": "Gt", "Lt": "GtE", "GtE": "Lt", "Eq": "NotEq", "NotEq": "Eq"}.get(op)
+        return (fld, cnt, op)
+
+    def first(path, nodes, after=-1):
+        for i_, x in enumerate(path):
+            if i_ > after and x in nodes:
+                return i_
+        return None
+
+    locked_paths = [(pth, lits) for (pth, lits) in paths if first(pth, recs) is None and any(is_locked(t) and pol for t, pol in lits.items())]
+    ck.need(locked_paths, "_update_dependencies: no exit for a locked cluster found")
+    lock_test = None
+    for n_ in cfg.nodes:
+        if lock_test is None and n_.kind == "test" and n_.id in cfg.reachable_nodes() and any(is_locked(t) for (t, _p) in fa._atoms(n_.ast, n_.id, True)):
+            lock_test = n_.ast
+    guards = set()
+    unguarded = None
+    for (pth, lits) in locked_paths:
+        rel = [r for r in (stamp_relation(t, pol) for t, pol in lits.items()) if r is not None
+               and r[2] in ("GtE", "Gt", "Eq") and (r[1] in recorded or "MementoFunction." + r[1] == GEN)]
+        if rel:
+            guards.update((r[0], r[1]) for r in rel)
+        else:
+            unguarded = unguarded or (pth, lits)
+    ok1 = unguarded is None and len(guards) == 1
+    if unguarded is not None:
+        seen_rel = sorted({"self.%s %s MementoFunction.%s" % (r[0], r[2], r[1]) for (_p, lits) in locked_paths
+                           for r in (stamp_relation(t, pol) for t, pol in lits.items()) if r is not None})
+        why1 = ("the exit for a locked cluster is taken for ANY calculated version%s: the version computed while the function was being registered "
+                "(before the functions defined after it existed) is frozen, so the same program gets different versions for different definition "
+                "orders, and a function defined before its callee keeps rules without the callee%s"
+                % ("" if not seen_rel else " (the comparison on the way there reads `%s`, which does not say the version is at least as recent as the last definition)" % "; ".join(seen_rel),
+                   ": path %s" % cfg.describe_path(unguarded[0])))
+    else:
+        why1 = "the locked exit compares more than one stamp / counter pair: %s" % sorted(guards)
+    ck.ob(R, fa.key(lock_test, "locked-exit-only-for-version-as-of-last-definition"), ok1,
+          "the locked exit is taken only for a version stamped at or after the last definition" if ok1 else why1, fa.where(lock_test))
+    if not ok1:
+        return
+    (stamp, counter_name) = next(iter(guards))
+    # (2) the counter is recorded at registration
+    if "MementoFunction." + counter_name != GEN:
+        regs = ini.nodes_all(ini.calls("register_function"))
+        incs = ini.nodes_all(ini.calls("increment_global_fn_generation"))
+        by_call = recorded_by_call.get(counter_name, [])
+        asn = ini.nodes_all(recorded.get(counter_name, [])) + ini.nodes_all([c for (c, _in) in by_call])
+        bumped_inside = set(ini.nodes_all([c for (c, inside) in by_call if inside]))
+        ok2 = bool(regs) and bool(asn) and all(ini.cfg.must_pass(asn, i) for i in regs) and bool(incs) \
+            and all(a in bumped_inside or ini.cfg.must_pass(incs, a) for a in asn)
+        # no bump between the recording and the registration
+        if ok2:
+            for a in asn:
+                between = ini.cfg.reach([a], include_start=False)
+                if any(i != a and i in between and any(r in ini.cfg.reach([i], include_start=False) for r in regs) for i in incs):
+                    ok2 = False
+        ck.ob(R, ini.key(None, "last-definition-recorded"), ok2, "registration records the generation of the definition, after the bump" if ok2 else
+              "a function can be registered without `MementoFunction.%s` having been set to the generation of this definition (after the bump): "
+              "the locked exit then takes versions computed before this function existed for current" % counter_name, ini.where())
+        # nobody gives the counter another value
+        mod = ck.repo.module("memento")
+        for fi in mod.all_funcs():
+            for s_ in ast.walk(fi.node):
+                tg = s_.targets if isinstance(s_, ast.Assign) else [s_.target] if isinstance(s_, (ast.AugAssign, ast.AnnAssign)) else []
+                for t in tg:
+                    if isinstance(t, ast.Attribute) and t.attr == counter_name and _direct_parent_func_is(fi, s_):
+                        me_ = fi.params[0] if fi.is_classmethod and fi.params else None
+
+                        def own_(t_, _me=me_):
+                            return re.sub(r"\b%s\." % re.escape(_me), "MementoFunction.", cls_text(t_)) if _me else cls_text(t_)
+
+                        okw = isinstance(s_, ast.Assign) and own_(A.norm(s_.value)) == GEN or (fi.qual == MF + ".__init__" and s_ in recorded.get(counter_name, []))
+                        if not okw:
+                            fx = FA(ck, fi)
+                            okw = isinstance(s_, ast.Assign) and bool(fx.nodes(s_)) and own_(fx.xnorm(s_.value, fx.nodes(s_)[0])) == GEN
+                            ck.ob(R, fx.key(s_, "last-definition-only-from-generation"), okw, "the counter is set from the current generation" if okw else
+                                  "`%s` gives the generation of the last definition a value other than the current generation: versions older than the "
+                                  "last definition pass the locked exit" % A.short(s_, 60), fx.where(s_))
+    # (3) the stamp
+    stamp_asg = [s_ for s_ in fa.stmts(ast.Assign) if fa.nodes(s_) and any(A.dotted(t) == "self." + stamp for t in s_.targets)]
+    cur = set()
+    for s_ in stamp_asg:
+        for i in fa.nodes(s_):
+            if cls_text(fa.xnorm(s_.value, i)) == GEN:
+                cur.add(i)
+    incs_u = set(fa.nodes_all(fa.calls("increment_global_fn_generation")))
+    bad3 = None
+    for (pth, lits) in paths:
+        i_rec = first(pth, recs)
+        if i_rec is None:
+            continue
+        last_inc = max([k for k, x in enumerate(pth) if x in incs_u], default=-1)
+        if first(pth, cur, last_inc) is None:
+            bad3 = bad3 or pth
+    ok3 = bool(cur) and bad3 is None
+    ck.ob(R, fa.key(None, "stamp-set-when-computed"), ok3, "every recomputation stamps the version with the current generation" if ok3 else
+          "a recomputed version is not stamped with the current generation (`self.%s`)%s: in a locked cluster the version is recomputed on every "
+          "query, or - if the stamp keeps an earlier, larger value - a version older than the last definition is frozen"
+          % (stamp, (": path %s" % cfg.describe_path(bad3)) if bad3 else ""), fa.where())
+    # elsewhere the stamp is set only where the version was confirmed for the current generation
+    gen_eq = [t for (_p, lits) in paths for t in lits
+              if isinstance(_parse_lit(t), ast.Compare) and isinstance(_parse_lit(t).ops[0], ast.Eq) and GEN in cls_text(t) and "_global_fn_version_cache" in t]
+    # the field of a cache entry that the generation test compares with the current generation
+    gen_fields = set()
+    for t in gen_eq:
+        e_ = _parse_lit(cls_text(t))
+        for side in (e_.left, e_.comparators[0]):
+            if isinstance(side, ast.Attribute) and "_global_fn_version_cache" in A.norm(side):
+                gen_fields.add(side.attr)
+
+    def entry_generation(v_, at_):
+        """`<the cache entry>.<generation field>`, the entry read from the version cache on the spot or through a local"""
+        if not (isinstance(v_, ast.Attribute) and v_.attr in gen_fields):
+            return False
+        if isinstance(v_.value, ast.Name):
+            return any(d.value is not None and "_global_fn_version_cache" in cls_text(fa.xnorm(d.value, d.node)) for d in fa.df.reaching(at_, v_.value.id))
+        return "_global_fn_version_cache" in cls_text(fa.xnorm(v_.value, at_))
+
+    for s_ in stamp_asg:
+        ns = set(fa.nodes(s_))
+        okc = True
+        for (pth, lits) in paths:
+            if not (ns & set(pth)) or first(pth, recs) is not None:
+                continue
+            at_ = next(i for i in pth if i in ns)
+            val = cls_text(fa.xnorm(s_.value, at_))
+            confirmed = any(lits.get(t) is True for t in gen_eq)
+            if not (confirmed and (val == GEN or ("_global_fn_version_cache" in val and any(val in cls_text(t) for t in gen_eq)) or entry_generation(s_.value, at_))):
+                okc = False
+        ck.ob(R, fa.key(s_, "stamp-only-when-current"), okc, "the stamp is set where the version is computed or confirmed for the current generation" if okc else
+              "`%s` stamps a version that was neither recomputed nor confirmed (cache entry of the current generation, no rule changed) on that "
+              "path: a version from before the last definition passes the locked exit" % A.short(s_, 60), fa.where(s_))
+    mod = ck.repo.module("memento")
+    for fi in mod.all_funcs():
+        if fi.qual == MF + "._update_dependencies":
+            continue
+        for s_ in ast.walk(fi.node):
+            tg = s_.targets if isinstance(s_, ast.Assign) else [s_.target] if isinstance(s_, (ast.AugAssign, ast.AnnAssign)) else []
+            for t in tg:
+                if isinstance(t, ast.Attribute) and t.attr == stamp and _direct_parent_func_is(fi, s_):
+                    v_ = getattr(s_, "value", None)
+                    neg = isinstance(v_, ast.UnaryOp) and isinstance(v_.op, ast.USub) and isinstance(v_.operand, ast.Constant) and isinstance(v_.operand.value, int) and v_.operand.value > 0
+                    fx = FA(ck, fi)
+                    ck.ob(R, fx.key(s_, "stamp-written-by-updater-only"), neg and isinstance(s_, ast.Assign),
+                          "the stamp is reset to 'never'" if neg else
+                          "`%s` in %s sets the stamp of the calculated version outside the version updater: the locked exit trusts a stamp nobody vouches for"
+                          % (A.short(s_, 60), fi.qual), fx.where(s_))
+
+
+def _direct_parent_func_is(fi, stmt):
+    """`stmt` belongs to `fi` itself and not to a function nested in it"""
+    for n in ast.walk(fi.node):
+        if n is not fi.node and isinstance(n, (ast.FunctionDef, ast.AsyncFunctionDef, ast.Lambda)):
+            if any(x is stmt for x in ast.walk(n)):
+                return False
+    return True
+
+
 def _rule_identity_fields(ck):
     base = ck.repo.cls(CH + ".HashRule")
     out = None
@@ -3407,7 +3776,8 @@ def _literal_sites(fa):
 def _access_paths(fa, e, at, _seen=None, depth=12):
     """How the fresh resolution of a rule's symbol (`self.resolver()` / `self.ref_resolver()`) and the state the rule captured
     (`self.<field>`) reach the value of `e`: a set of (root, path, frozen) with root 'fresh' or 'cap:<field>' and path the
-    attribute names / '[]' / '<fn>()' steps that NARROW the object on the way.  Looking through decorator wrappers
+    attribute names / '[]' / '<fn>()' steps that NARROW the object on the way (frozen: falsy, True, or the name of the function
+    the object was handed to as a whole).  Looking through decorator wrappers
     (`.__wrapped__`) is not a step; a call that transforms the value as a whole freezes the path (what is done to its result
     says nothing about parts of the object).  Locals are followed to every definition that reaches them."""
     seen = _seen if _seen is not None else set()
@@ -3428,9 +3798,12 @@ def _access_paths(fa, e, at, _seen=None, depth=12):
         if nm == "getattr" and isinstance(e.func, ast.Name) and len(e.args) >= 2 and A.const_str(e.args[1]) is not None:
             return ext(rec(e.args[0]), A.const_str(e.args[1]))
         if isinstance(e.func, ast.Name) and nm in _NARROWING_CALLS and e.args:
-            return {(r_, p_, True) for (r_, p_, _f) in ext(rec(e.args[0]), nm + "()")}
+            return {(r_, p_, _f or True) for (r_, p_, _f) in ext(rec(e.args[0]), nm + "()")}
+        if isinstance(e.func, ast.Name) and nm == "id" and len(e.args) == 1 and not e.keywords:
+            return rec(e.args[0])       # equal ids <=> the same object: neither a step nor a transformation
+        # the frozen mark of a value handed to a call as a whole is the name of the (innermost) function it went through
         for x in list(e.args) + [k.value for k in e.keywords] + ([rc] if rc is not None else []):
-            out |= {(r_, p_, True) for (r_, p_, _f) in rec(x.value if isinstance(x, ast.Starred) else x)}
+            out |= {(r_, p_, _f or nm or True) for (r_, p_, _f) in rec(x.value if isinstance(x, ast.Starred) else x)}
         return out
     if isinstance(e, ast.Attribute):
         if isinstance(e.value, ast.Name) and e.value.id == "self":
@@ -3454,7 +3827,7 @@ def _access_paths(fa, e, at, _seen=None, depth=12):
         for ch in ast.iter_child_nodes(e):
             for x in ast.walk(ch):
                 if isinstance(x, (ast.Call, ast.Attribute, ast.Name)):
-                    out |= {(r_, p_, True) for (r_, p_, _f) in _access_paths(fa, x, at, seen, 2)}
+                    out |= {(r_, p_, _f or True) for (r_, p_, _f) in _access_paths(fa, x, at, seen, 2)}
         return out
     for ch in ast.iter_child_nodes(e):
         if isinstance(ch, ast.expr):
@@ -3462,7 +3835,7 @@ def _access_paths(fa, e, at, _seen=None, depth=12):
     return out
 
 
-def _hashed_paths(ck, cls):
+def _hashed_paths(ck, cls, with_transform=False):
     """What compute_hash reads of the state the rule captured: {(field, path)}; empty when the rule contributes nothing."""
     m = cls.methods.get("compute_hash")
     out = set()
@@ -3472,9 +3845,71 @@ def _hashed_paths(ck, cls):
     for r in fa.returns():
         if r.value is None or A.is_none(r.value) or not fa.nodes(r):
             continue
-        for (root, path, _fz) in _access_paths(fa, r.value, fa.nodes(r)[0]):
+        for (root, path, fz) in _access_paths(fa, r.value, fa.nodes(r)[0]):
             if root.startswith("cap:"):
-                out.add((root[4:], path))
+                out.add((root[4:], path, fz) if with_transform else (root[4:], path))
+    return out
+
+
+def _descended_paths(ck, cls):
+    """What the rule reads of the state it captured when it collects the rules below it (collect_transitive_dependencies):
+    {(field, path, frozen)} with `frozen` the function the object is handed to as a whole.  The rules of the names used by a
+    function, the table those names are looked up in and the scope test are all derived from the captured object here, so
+    they are part of what 'unchanged' vouches for, exactly as the hashed piece is."""
+    m = cls.methods.get("collect_transitive_dependencies")
+    out = set()
+    if m is None:
+        return out
+    fa = FA(ck, m)
+    for st in fa.stmts():
+        ns = fa.nodes(st)
+        if not ns:
+            continue
+        if isinstance(st, (ast.Assign, ast.AnnAssign)) and all(isinstance(t, ast.Name) for t in (st.targets if isinstance(st, ast.Assign) else [st.target])):
+            continue    # a local: judged where it is used
+        roots = [st.test] if isinstance(st, (ast.If, ast.While)) else [st.iter] if isinstance(st, (ast.For, ast.AsyncFor)) else \
+            [i.context_expr for i in st.items] if isinstance(st, (ast.With, ast.AsyncWith)) else \
+            [] if isinstance(st, (ast.Try, ast.FunctionDef, ast.AsyncFunctionDef, ast.ClassDef)) else \
+            [x for x in ast.iter_child_nodes(st) if isinstance(x, ast.expr)]
+        for rt in roots:
+            for (root, path, fz) in _access_paths(fa, rt, ns[0]):
+                if root.startswith("cap:"):
+                    out.add((root[4:], path, fz))
+    return out
+
+
+def _without_bool(e):
+    """`bool(E)` as an answer / a test is `E` (a copy is made when something is taken out)"""
+    if e is None or not any(isinstance(x, ast.Call) and isinstance(x.func, ast.Name) and x.func.id == "bool" for x in ast.walk(e)):
+        return e
+    import copy
+
+    class T(ast.NodeTransformer):
+        def visit_Call(self, n):
+            self.generic_visit(n)
+            if isinstance(n.func, ast.Name) and n.func.id == "bool" and len(n.args) == 1 and not n.keywords and not isinstance(n.args[0], ast.Starred) \
+                    and isinstance(n.args[0], (ast.Compare, ast.BoolOp, ast.UnaryOp, ast.IfExp)):
+                return n.args[0]
+            return n
+    return ast.fix_missing_locations(T().visit(copy.deepcopy(e)))
+
+
+def _prune_constant_literals(ways):
+    """A constant among the literals of a way (`False if same else True`): the way is impossible when the constant would have to
+    come out the other way, and says nothing more when it comes out as it must."""
+    out = []
+    for w in ways:
+        keep = []
+        for (t, pol) in w:
+            c = _parse_lit(t)
+            if isinstance(c, ast.Constant) and (isinstance(c.value, (bool, int, str)) or c.value is None):
+                if bool(c.value) != pol:
+                    keep = None
+                    break
+                continue
+            keep.append((t, pol))
+        if keep is not None:
+            out.append(keep)
     return out
 
 
@@ -3504,6 +3939,18 @@ def check_did_change(ck, R):
         # the answer False without a comparison is allowed only when nothing is tracked
         allowed_false_guard = {"GlobalVariableHashRule": (("self.last_value is None", True),)}.get(cls.name, ())
         hashed = _hashed_paths(ck, cls)
+        # everything the rule derives from the state it captured: the hashed piece and the rules below it
+        derived = {d_ for d_ in _hashed_paths(ck, cls, True) | _descended_paths(ck, cls) if d_[0] in captured}
+
+        def covers(e_, d_):
+            """does equality of access `e_` (one side of the comparison) vouch for the derived use `d_`?  A part compared
+            directly vouches for everything read below it; a value compared only as seen through a function (`f(new) == f(old)`)
+            vouches for `f(old)` and nothing else."""
+            (r_, p_, z_), (_fl, q_, dz_) = e_, d_
+            if isinstance(z_, str) and r_ != "fresh":
+                return dz_ == z_ and q_ == p_
+            return q_[:len(p_)] == p_
+
         paths = _exit_paths(fa)
         ck.need(paths is not None, "%s.did_change: too many paths" % cls.qual)
         # The function is judged on its PATH CLASSES: every acyclic path to the normal exit with the literals of the branch
@@ -3539,8 +3986,11 @@ def check_did_change(ck, R):
                         fr = {x for x in a_ if x[0] == "fresh"}
                         cp = {x for x in b_ if x[0].startswith("cap:") and x[0][4:] in captured}
                         if fr and cp:
-                            narrow = sorted({p_ for (_r, p_, _f) in fr | cp if any(q_[:len(p_)] != p_ for (_fl, q_) in hashed)})
-                            res = {"kind": "cmp", "covering": not narrow, "narrow": narrow}
+                            narrow = sorted({p_ + ((z_ + "()",) if isinstance(z_, str) and r_ != "fresh" else ()) for (r_, p_, z_) in fr | cp
+                                             if any(not covers((r_, p_, z_), d_) for d_ in derived)})
+                            missing = sorted({_fmt_path(d_[0], d_[1]) + (" (handed to %s)" % d_[2] if isinstance(d_[2], str) else "")
+                                              for d_ in derived for e_ in fr | cp if not covers(e_, d_)})
+                            res = {"kind": "cmp", "covering": not narrow, "narrow": narrow, "missing": missing}
                             break
                     if res["kind"] is None and A.is_none(e.comparators[0]) and isinstance(op, (ast.Is, ast.IsNot)):
                         fl = _flow(fa, e.left, at) if at is not None else {id(x): x for x in ast.walk(e.left)}
@@ -3551,6 +4001,16 @@ def check_did_change(ck, R):
                     if any(r_ in ("cap:symbol", "cap:attr_name") for (r_, _p, _f) in lp_) and any(r_ in ("fresh", "cap:ref") for (r_, _p, _f) in rp_):
                         res = {"kind": "presence"}
                     del sides
+                if res["kind"] is None and presence and isinstance(op, (ast.Is, ast.IsNot)):
+                    # getattr(<object>, <name>, SENTINEL) is SENTINEL: the attribute is absent
+                    for (g_, s_) in ((e.left, e.comparators[0]), (e.comparators[0], e.left)):
+                        if isinstance(g_, ast.Call) and isinstance(g_.func, ast.Name) and g_.func.id == "getattr" and len(g_.args) == 3 and not g_.keywords \
+                                and isinstance(s_, (ast.Name, ast.Attribute)) and A.norm(g_.args[2]) == A.norm(s_) \
+                                and any(r_ in ("fresh", "cap:ref") for (r_, _p, _f) in _access_paths(fa, g_.args[0], at)) \
+                                and any(r_ in ("cap:symbol", "cap:attr_name") for (r_, _p, _f) in _access_paths(fa, g_.args[1], at)):
+                            canon = _parse_lit(text)    # the polarity of a literal refers to its canonical text
+                            c_op = canon.ops[0] if isinstance(canon, ast.Compare) and len(canon.ops) == 1 else op
+                            res = {"kind": "absence" if isinstance(c_op, ast.Is) else "presence"}
             elif isinstance(e, ast.Call) and A.call_attr(e) == "hasattr" and isinstance(e.func, ast.Name) and len(e.args) == 2 and presence:
                 if any(r_ in ("fresh", "cap:ref") for (r_, _p, _f) in _access_paths(fa, e.args[0], at)) \
                         and any(r_ in ("cap:symbol", "cap:attr_name") for (r_, _p, _f) in _access_paths(fa, e.args[1], at)):
@@ -3593,16 +4053,17 @@ def check_did_change(ck, R):
         bad = {}                # id(return stmt) -> (return stmt, [reasons], constant?)
         for (pth, lits) in paths:
             (ret, val, vnode) = returned(pth)
+            val = _without_bool(val)
             if isinstance(val, ast.Constant) and val.value is not None:
                 ways = None if bool(val.value) else [[]]
             elif val is None or A.is_none(val):
                 ways = [[]]
             else:
                 try:
-                    ways = fa._alts(val, vnode, False)
+                    ways = _prune_constant_literals(fa._alts(val, vnode, False))
                 except AnalysisError:
                     ways = [[(A.norm(val), False)]]
-            base_cmp = [t for t in lits if info(t)["kind"] in ("cmp", "presence")]
+            base_cmp = [t for t in lits if info(t)["kind"] in ("cmp", "presence", "absence")]
             if ways is None:
                 n_compared += bool(base_cmp)
                 continue  # "changed" without looking costs a recomputation, never a stale version
@@ -3615,7 +4076,7 @@ def check_did_change(ck, R):
                 ok_way = any((t, p_) in allowed_false_guard for t, p_ in conj.items())
                 ok_way = ok_way or any(conj[t] is True and kinds[t]["covering"] for t in cmps)
                 if presence:
-                    ok_way = ok_way or any(kinds[t]["kind"] == "presence" and conj[t] is False for t in conj)
+                    ok_way = ok_way or any((kinds[t]["kind"] == "presence" and conj[t] is False) or (kinds[t]["kind"] == "absence" and conj[t] is True) for t in conj)
                 if watch_only and not ok_way:
                     # nothing is hashed for the symbol itself: once the comparison has said "bound to another object", the answer
                     # may be narrowed to "and some strategy can hash it now" - asked of the fresh object, of every strategy
@@ -3644,10 +4105,14 @@ def check_did_change(ck, R):
             if narrow:
                 ck.ob(R, fa.key(ret, "compares-what-is-hashed"), False,
                       "%s.did_change answers 'unchanged' when only `%s` of the freshly resolved object equals that of the captured one, but the rule's hash "
-                      "(compute_hash) is computed from %s: an object that differs elsewhere (default values, captured closure constants, another "
-                      "attribute) gets a different hash, yet no recomputation is asked for and results of the earlier edition are served"
-                      % (cls.name, narrow[0][7:], ", ".join(sorted(_fmt_path(f_, q_) for (f_, q_) in hashed)) or "nothing"), fa.where(ret))
-                why = why or "compares only a part (%s) of what the rule hashes" % narrow[0][7:]
+                      "(compute_hash) is computed from %s and the rules below it (collect_transitive_dependencies: the names it uses, the table "
+                      "they are resolved in, its scope) from %s: an object that differs elsewhere (default values, captured closure constants, "
+                      "another attribute, the module whose globals it reads) gets a different hash or different dependencies, yet no recomputation "
+                      "is asked for and results of the earlier edition are served"
+                      % (cls.name, narrow[0][7:], ", ".join(sorted(_fmt_path(f_, q_) for (f_, q_) in hashed)) or "nothing",
+                         ", ".join(sorted({_fmt_path(f_, q_) + (" (handed to %s)" % z_ if isinstance(z_, str) else "") for (f_, q_, z_) in _descended_paths(ck, cls) if f_ in captured})) or "nothing"),
+                      fa.where(ret))
+                why = why or "compares only a part (%s) of what the rule hashes and descends from" % narrow[0][7:]
             rest = [x for x in reasons if not x.startswith("narrow:")]
             if rest:
                 ck.ob(R, fa.key(ret, "no-shortcut"), False,
@@ -3658,7 +4123,7 @@ def check_did_change(ck, R):
         # the overall verdict, with the most specific reason
         any_fresh = any(r_ == "fresh" for st in fa.stmts() if fa.nodes(st) for x in A.walk_local(st) if isinstance(x, ast.Call)
                         for (r_, _p, _f) in _access_paths(fa, x, None))
-        any_real = any(i_["kind"] in ("cmp", "presence") for i_ in lit_info.values())
+        any_real = any(i_["kind"] in ("cmp", "presence", "absence") for i_ in lit_info.values())
         ok = not bad and n_compared > 0
         if not ok and not why:
             why = ("does not re-resolve the symbol" if not (any_fresh or (presence and any_real)) else
@@ -3674,12 +4139,14 @@ def check_every_symbol_watched(ck, R):
     (result.add / collect_transitive_dependencies), except the exits for a function without globals and for
     black-listed objects."""
     v = FA(ck, CH + ".HashRule._visit_dependency")
-    adds = v.nodes_all([c for (c, _el) in _set_additions(v, "result")] + v.calls("collect_transitive_dependencies"))
+    unit_ = _visit_unit(ck)
+    helpers_ = {u.fi.name: u for u in unit_[1:]}
+
     # exits that are allowed to add nothing: `if not hasattr(src_fn, '__globals__'): return`
-    def about_globals(if_):
+    def about_globals(fx, if_):
         """is the test of this `if` about the function having a globals table (spelt on the spot or through a local)?"""
-        ns_ = v.nodes(if_.test)
-        t = v.expand(if_.test, ns_[0]) if ns_ else if_.test
+        ns_ = fx.nodes(if_.test)
+        t = fx.expand(if_.test, ns_[0]) if ns_ else if_.test
         while isinstance(t, ast.UnaryOp) and isinstance(t.op, ast.Not):
             t = t.operand
 
@@ -3691,9 +4158,25 @@ def check_every_symbol_watched(ck, R):
             return True
         return isinstance(t, ast.Compare) and len(t.ops) == 1 and isinstance(t.ops[0], (ast.Is, ast.IsNot)) and A.is_none(t.comparators[0]) and globals_read(t.left)
 
-    allowed = [n.id for n in v.cfg.nodes if n.kind == "stmt" and isinstance(n.ast, ast.Return) and v.enclosing(n.ast, ast.If) is not None
-               and about_globals(v.enclosing(n.ast, ast.If))]
-    p = v.cfg.path(v.cfg.entry, v.cfg.exit, removed=set(adds) | set(allowed))
+    def silent_path(fx, res, depth=0):
+        """a way through `fx` (the visit, or a method of the class it was split into) from entry to normal exit on which no rule
+        is added to the result set `res`: neither directly, nor by a rule's own descent, nor by a part of the visit that itself
+        adds a rule on every way through it.  None when there is no such way."""
+        adds_ = fx.nodes_all([c for (c, _el) in _set_additions(fx, res)] + fx.calls("collect_transitive_dependencies"))
+        for c in fx.calls():
+            hx = helpers_.get(A.call_attr(c) or "")
+            rc = A.call_recv(c)
+            if hx is None or hx is fx or depth > 3 or not fx.nodes(c) or not (isinstance(rc, ast.Name) and rc.id in ("HashRule", "cls", "self")):
+                continue
+            ps = [p_ for p_ in hx.fi.params if not (p_ in ("self", "cls") and not hx.fi.is_static)]
+            hres = [p_ for i_, p_ in enumerate(ps) for a_ in [A.arg_or_kw(c, i_, p_)] if a_ is not None and fx.xnorm(a_, fx.nodes(c)[0]) == res]
+            if len(hres) == 1 and silent_path(hx, hres[0], depth + 1) is None:
+                adds_ = adds_ + fx.nodes(c)
+        allowed_ = [n.id for n in fx.cfg.nodes if n.kind == "stmt" and isinstance(n.ast, ast.Return) and fx.enclosing(n.ast, ast.If) is not None
+                    and about_globals(fx, fx.enclosing(n.ast, ast.If))]
+        return fx.cfg.path(fx.cfg.entry, fx.cfg.exit, removed=set(adds_) | set(allowed_))
+
+    p = silent_path(v, "result")
     ok = p is None
     ck.ob(R, v.key(None, "every-symbol-watched"), ok, "every exit adds a rule for the symbol" if ok else
           "_visit_dependency can finish without adding any rule for a symbol that resolves to an object no strategy matches (functools.partial, a class, "
